@@ -67,7 +67,7 @@ pub fn cases(tier: Tier) -> (Vec<Case>, serde_json::Value) {
     };
     let mut progs = if tier == Tier::Quick { program_space2(d1, d2, 1) } else { program_space(d1, d2) };
     if tier == Tier::Thorough {
-        let mut extra = program_space(2, 2);
+        let mut extra = program_space2(3, 2, 0);
         extra.retain(|p| p.closures.iter().any(|c| c.len() == 2));
         progs.extend(extra);
     }
@@ -78,7 +78,7 @@ pub fn cases(tier: Tier) -> (Vec<Case>, serde_json::Value) {
             Tier::Quick => out.push(Case { curve: CURVES[i % 3], prog: p, caps: None, class: "shape" }),
             Tier::Thorough => {
                 // depth-4 layer: one curve per program (round-robin); everything shallower: all curves
-                if p.p1.len() == 4 {
+                if p.p1.len() == 4 || (p.p1.len() == 3 && p.closures.iter().any(|c| c.len() == 2)) {
                     out.push(Case { curve: CURVES[i % 3], prog: p, caps: None, class: "shape" });
                 } else {
                     for c in CURVES {
@@ -141,7 +141,7 @@ pub fn cases(tier: Tier) -> (Vec<Case>, serde_json::Value) {
         }
     }
     let bounds = json!({
-        "program_space": format!("P({},{}){}", d1, d2, if tier == Tier::Thorough { " + P(2,2) bodies of length 2" } else { "" }),
+        "program_space": format!("P({},{}){}", d1, d2, if tier == Tier::Thorough { " + P(3,2) bodies of length 2" } else { "" }),
         "letters_phase1": program::P1_LETTERS.iter().map(|o| o.name()).collect::<Vec<_>>(),
         "letters_phase2": program::P2_LETTERS.iter().map(|o| o.name()).collect::<Vec<_>>(),
         "shape_programs": n_shape,
